@@ -121,6 +121,8 @@ extern vf_world W;
 extern uint8_t  vf_trace_bytes[VF_TRACE_BYTES];
 
 void   vf_world_init(size_t mtu, int wifi, uint8_t fill);   /* config + reset */
+int    vf_mem_exceeded(void);           /* resident set above the per-process budget (VF_MEMLIM_MB) */
+void   vf_rich_platform(void);          /* maximal-length string attributes (hardware ID, machine name, SSIDs) */
 void   vf_world_reset(void);            /* pristine process image: core globals, heap, clock */
 void   vf_trace_clear(void);
 void  *vf_ctx(int iface);               /* iface_ctx pointer handed to the core */
